@@ -224,3 +224,25 @@ Theorem C13_src_redirect_replace_is_model : forall exceptions f r r1 p1 s,
     else pick_loop exceptions r (Some (r1, p1)).
 Proof. exact Struct_Check_Proofs.redirect_replace_is_model. Qed.
 Print Assumptions C13_src_redirect_replace_is_model.
+
+(* ---- the redirect side of the resource store, re-read from src/resources/resource_storage.rs on
+   every run (tools/gen_fragments/c13_storage_structure.py -> Generated.Storage13Gen;
+   c18_deps_structure.py -> Generated.AddResGen): the gates of get_redirect_resource in source order
+   ARE the model's, a resource that requires any permission is never served, and the statements of
+   add_resource ARE C13_Model.add_resource (a rejected resource changes nothing) ---- *)
+From Adb Require Struct_Storage_Proofs.
+Theorem C13_src_get_redirect_resource_is_model : forall (st : storage) (ident : str),
+  Struct_Storage_Proofs.interp_get_redirect st ident = get_redirect_resource st ident.
+Proof. exact Struct_Storage_Proofs.interp_get_redirect_is_model. Qed.
+Print Assumptions C13_src_get_redirect_resource_is_model.
+
+Theorem C13_src_permissioned_resource_is_never_served : forall (st : storage) (ident : str) (r : resource),
+  get_internal_resource st ident = Some r -> N.eqb (r_permission r) 0 = false ->
+  Struct_Storage_Proofs.interp_get_redirect st ident = None.
+Proof. exact Struct_Storage_Proofs.permissioned_resource_is_never_served. Qed.
+Print Assumptions C13_src_permissioned_resource_is_never_served.
+
+Theorem C13_src_add_resource_is_model : forall (st : storage) (r : resource),
+  exists rejected, Struct_Storage_Proofs.interp_add13 st r = Some (add_resource st r, rejected).
+Proof. exact Struct_Storage_Proofs.interp_add13_is_model. Qed.
+Print Assumptions C13_src_add_resource_is_model.
